@@ -91,6 +91,9 @@ class Analyzer(cfg.GraphVisitor):
         # Any closure of a reaching function definition is conservatively
         # considered live.
         live_in |= (fn_scope.read - fn_scope.bound)
+        # Names declared nonlocal are bound in the function's scope, but they
+        # are variables of this (or an enclosing) function nonetheless.
+        live_in |= (fn_scope.read & fn_scope.nonlocals)
 
     else:
       assert self.can_ignore(node), (node.ast_node, node)
